@@ -199,6 +199,8 @@ impl DBM {
             }
         }
 
+        #[cfg(feature = "verif")]
+        let _after = teos_common::verif::around("db.commit.users");
         match tx.commit() {
             Ok(_) => log::debug!("Users successfully deleted"),
             Err(e) => log::error!("Couldn't delete users. Error: {e:?}"),
@@ -445,6 +447,8 @@ impl DBM {
             };
         }
 
+        #[cfg(feature = "verif")]
+        let _after = teos_common::verif::around("db.commit.appointments");
         match tx.commit() {
             Ok(_) => log::debug!("Appointments successfully deleted"),
             Err(e) => log::error!("Couldn't delete appointments. Error: {e:?}"),
